@@ -149,9 +149,12 @@ def ob_instance_start_stop(vc):
     vc.check_eq(w.log, [], "instance.start.sends_nothing_itself")
     task = inst._task
     inst._can_answer_offers = vc.bool("ready_when_stopped")
+    if not w.cyclic:
+        # a non-cyclic offer task ends on its own after the repetitions
+        task.finished = vc.bool("task_finished_on_its_own")
     vc.body(SD.ServiceInstance.stop)(inst)
     vc.check(inst._task is None, "instance.stop.no_task")
-    vc.check(task.cancel_requested, "instance.stop.task_cancelled")
+    vc.check(task.cancel_requested or task.finished, "instance.stop.task_cancelled")
     vc.check(not inst._can_answer_offers, "instance.stop.not_ready_afterwards")
     if w.cyclic:
         vc.cover("cyclic")
